@@ -52,6 +52,9 @@ type stream struct {
 	// lagUntil: the local Close that ended this stream does not interrupt calls
 	// that are blocked in it (or arrive) before this instant; they fail then.
 	lagUntil time.Time
+	// lagAccept: a Write held back by the lag is accepted (and recorded) when the lag
+	// is over instead of failing - a segment that was already on its way.
+	lagAccept bool
 }
 
 // waitLag is called with s.mu held when a local Close has ended the stream.
@@ -74,7 +77,11 @@ func (s *stream) read(p []byte) (int, error) {
 	defer s.mu.Unlock()
 	for {
 		if s.rclosed {
+			lagging := time.Until(s.lagUntil) > 0
 			s.waitLag()
+			if lagging && s.lagAccept && len(s.chunks) > 0 {
+				break // a segment that arrived while the close was not yet effective is still delivered
+			}
 			return 0, net.ErrClosed
 		}
 		if len(s.chunks) > 0 {
@@ -121,9 +128,17 @@ func (s *stream) write(p []byte) (int, error) {
 	s.calls++
 	n := 0
 	for {
-		if s.rclosed || s.wclosed {
+		if s.rclosed && !s.wclosed && s.lagAccept && time.Until(s.lagUntil) > 0 {
+			// the reader's Close is not effective yet: the segment is taken
+		} else if s.rclosed || s.wclosed {
 			if s.wclosed {
+				lagging := time.Until(s.lagUntil) > 0
 				s.waitLag()
+				if lagging && s.lagAccept {
+					s.marks = append(s.marks, Mark{Off: len(s.rec), Len: len(p), At: time.Now(), Call: call})
+					s.rec = append(s.rec, p...)
+					return n + len(p), nil
+				}
 			}
 			return n, io.ErrClosedPipe
 		}
@@ -195,6 +210,18 @@ func (e *End) SetCloseLag(d time.Duration) {
 	e.cmu.Lock()
 	e.closeLag = d
 	e.cmu.Unlock()
+}
+
+// SetCloseLagAccept makes Writes that are held back by the close lag succeed
+// when the lag is over (the bytes are recorded but never delivered), and lets a
+// Read that is held back return data the other side wrote during the lag.
+func (e *End) SetCloseLagAccept(on bool) {
+	e.out.mu.Lock()
+	e.out.lagAccept = on
+	e.out.mu.Unlock()
+	e.in.mu.Lock()
+	e.in.lagAccept = on
+	e.in.mu.Unlock()
 }
 
 // Pipe returns the library side and the harness (peer) side of a fresh transport.
